@@ -162,6 +162,7 @@ def run(prog, tier):
 
     # ---- who-may rules over SAVE \ {write} -------------------------------------------------
     nstream_uses = 0
+    helper_owns_stream = []
     for u in sorted(save):
         f = prog.funcs[u]
         if f is w:
@@ -173,7 +174,13 @@ def run(prog, tier):
                 n = f.nodes[nid]
                 nstream_uses += 1
                 if kind == 'member':
-                    if name in HIDERS or name in ('exceptions', 'close', 'open'):
+                    only_write_ = (f.rec.get('internal') or '(anonymous namespace)' in f.qname) and {g_.usr for g_, _c in prog.callers_of(f.usr)} == {w.usr}
+                    if name in ('close', 'open', 'flush') and only_write_:
+                        # a file-local part of c3d::write itself (it closes / opens the stream for it): the typestate below does not look into it
+                        helper_owns_stream.append((f, nid, name))
+                        res.undecided('hide', '%s on the output stream' % name, f.loc(nid), 'c3d::write hands the %s() of its stream to the file-local helper %s; the stream state after that call is not followed into '
+                                      'the helper [shape not read by the rule]' % (name, f.name), function=f.sig, expr=name)
+                    elif name in HIDERS or name in ('exceptions', 'close', 'open'):
                         res.viol('hide', '%s on the output stream' % name, f.loc(nid),
                                  'a section writer changes or hides the stream state', function=f.sig, expr=name)
                     elif name in WRITES or name in POSITION or name in TESTS or name == 'flush':
@@ -617,6 +624,10 @@ def run(prog, tier):
                 last = (lab, s)
         return steps
 
+    if bad_exit and helper_owns_stream:
+        res.undecided('typestate', 'c3d::write normal exit', w.loc(), 'the stream is closed / flushed inside %s, which the typestate does not follow: the state at the normal exit is not decided [shape not read by the rule]' %
+                      helper_owns_stream[0][0].name, function=w.sig, expr='normal-exit')
+        bad_exit = []
     if bad_exit:
         # report one violation per distinct failing cause
         kinds = {}
